@@ -1,4 +1,421 @@
 package main
 
-func cmdCheck(args []string) int   { return 2 }
+import (
+	"encoding/json"
+	"flag"
+	"fmt"
+	"os"
+	"path/filepath"
+	"sort"
+	"strconv"
+	"strings"
+	"time"
+)
+
+const verifDir = "/verif"
+
+// properties whose obligations are attached by kind (frame, no-panic) rather than by a function's props
+var crossCutting = map[string]bool{"C01": true, "C10": true, "C11": true}
+
+type knownFinding struct {
+	Property   string `json:"property"`
+	Status     string `json:"status"` // known | fixed
+	Obligation string `json:"obligation,omitempty"`
+	Harness    string `json:"harness,omitempty"`
+	Input      string `json:"input,omitempty"`
+	What       string `json:"what"`
+	Commit     string `json:"commit,omitempty"`
+}
+
+type propConf struct {
+	Level       string   `json:"level"`
+	Explanation string   `json:"explanation"`
+	Bounded     []string `json:"bounded"`
+	Trusted     []string `json:"trusted_base"`
+	Assumptions []string `json:"assumptions"`
+}
+
+func loadJSON(path string, v interface{}) error {
+	b, err := os.ReadFile(path)
+	if err != nil {
+		return err
+	}
+	return json.Unmarshal(b, v)
+}
+
+func cmdCheck(args []string) int {
+	if len(args) < 1 {
+		usage()
+	}
+	prop := args[0]
+	fs := flag.NewFlagSet("check", flag.ExitOnError)
+	tier := fs.String("tier", os.Getenv("VERIF_TIER"), "quick|thorough")
+	repo := fs.String("repo", "/repo", "repository")
+	verbose := fs.Bool("v", false, "verbose")
+	fs.Parse(args[1:])
+	if *tier == "" {
+		*tier = "quick"
+	}
+	seed, _ := strconv.Atoi(os.Getenv("VERIF_SEED"))
+	t0 := time.Now()
+	if err := initWorkDir(); err != nil {
+		fmt.Fprintln(os.Stderr, err)
+		return 2
+	}
+	defer cleanupWorkDir()
+
+	var confs map[string]propConf
+	if err := loadJSON(filepath.Join(verifDir, "props.json"), &confs); err != nil {
+		fmt.Fprintln(os.Stderr, "props.json:", err)
+		return 2
+	}
+	conf, ok := confs[prop]
+	if !ok {
+		fmt.Fprintf(os.Stderr, "property %s is not claimed (see MANIFEST.json not_applicable)\n", prop)
+		return 2
+	}
+	var known []knownFinding
+	_ = loadJSON(filepath.Join(verifDir, "known_findings.json"), &known)
+	var expected map[string][]string
+	_ = loadJSON(filepath.Join(verifDir, "expected_obligations.json"), &expected)
+
+	gr, err := generateAll(*repo, func(c *FuncContract) bool {
+		return crossCutting[prop] || hasProp(c.Props, prop) || clauseMentionsProp(c, prop)
+	})
+	if err != nil {
+		// the tree does not load: nothing can be decided; not a violation of the property
+		fmt.Println("ERROR: cannot load /repo with -tags verif:", err)
+		writeEvidence(prop, *tier, seed, conf, nil, nil, nil, nil, time.Since(t0).Seconds(), []string{"load error: " + err.Error()}, 0, nil)
+		return 2
+	}
+	var obls []*Obligation
+	for _, o := range append(gr.obls, gr.lemmas...) {
+		if hasProp(o.Props, prop) {
+			obls = append(obls, o)
+		}
+	}
+	tmo, need := 10, 1
+	if *tier == "thorough" {
+		tmo, need = 60, 2
+	}
+	results := solveAll(obls, tmo, need, *verbose)
+
+	// vacuity guards: the assumptions at function entry and at each loop head must not be contradictory
+	vac := vacuityChecks(gr, prop)
+
+	var drift []string
+	drift = append(drift, gr.drift...)
+	got := map[string]bool{}
+	for _, r := range results {
+		got[r.O.Name] = true
+	}
+	missing := 0
+	for _, name := range expected[prop] {
+		if !got[name] {
+			missing++
+			drift = append(drift, "expected obligation not generated: "+name)
+		}
+	}
+	sort.Strings(drift)
+
+	violations := 0
+	discharged := 0
+	var failed []*oblResult
+	knownHit := map[string]bool{}
+	for _, r := range results {
+		switch r.R.Status {
+		case "unsat":
+			discharged++
+		case "bounded":
+		default:
+			failed = append(failed, r)
+		}
+	}
+	for _, d := range drift {
+		fmt.Println("DRIFT:", d)
+	}
+	for _, v := range vac {
+		fmt.Println("VACUOUS:", v)
+	}
+	exit := 0
+	for _, r := range failed {
+		if kf := matchKnown(known, prop, r.O.Name); kf != nil {
+			if !knownHit[kf.Obligation] {
+				knownHit[kf.Obligation] = true
+				fmt.Printf("KNOWN-FINDING: property=%s %s (%s)\n", prop, kf.What, r.O.Name)
+			}
+			continue
+		}
+		violations++
+		path := writeReplay(prop, r)
+		suffix := ""
+		if !replayHasInput(r) {
+			suffix = " no-failing-input-found"
+		}
+		fmt.Printf("VIOLATION property=%s replay=%s obligation=%s%s\n", prop, path, r.O.Name, suffix)
+		exit = 1
+	}
+	// bounded stand-ins
+	var bres []boundedResult
+	for _, h := range conf.Bounded {
+		br := runBounded(h, *tier, seed, *repo)
+		bres = append(bres, br)
+		for _, f := range br.Failures {
+			if kf := matchKnownBounded(known, prop, h, f.Input); kf != nil {
+				fmt.Printf("KNOWN-FINDING: property=%s %s (harness %s input %s)\n", prop, kf.What, h, f.Input)
+				continue
+			}
+			violations++
+			path := writeBoundedReplay(prop, h, f)
+			fmt.Printf("VIOLATION property=%s replay=%s harness=%s\n", prop, path, h)
+			exit = 1
+		}
+		if br.Error != "" {
+			fmt.Printf("ERROR: bounded harness %s did not run: %s\n", h, br.Error)
+			exit = 2
+		}
+	}
+	if len(vac) > 0 {
+		exit = 2
+	}
+	if len(results) == 0 && len(conf.Bounded) == 0 {
+		fmt.Println("ERROR: no obligations generated for", prop)
+		exit = 2
+	}
+	wall := time.Since(t0).Seconds()
+	writeEvidence(prop, *tier, seed, conf, gr, results, bres, drift, wall, vac, violations, knownHit)
+	fmt.Printf("%s %s: %d obligations, %d discharged, %d failed (%d known), %d drift, %d bounded harnesses, %.1fs\n",
+		prop, *tier, len(results), discharged, len(failed), len(knownHit), len(drift), len(bres), wall)
+	_ = missing
+	return exit
+}
+
+func clauseMentionsProp(c *FuncContract, prop string) bool {
+	for _, cl := range c.Requires {
+		if hasProp(cl.Props, prop) {
+			return true
+		}
+	}
+	for _, cl := range c.Ensures {
+		if hasProp(cl.Props, prop) {
+			return true
+		}
+	}
+	for _, l := range c.Loops {
+		for _, cl := range l.Invariants {
+			if hasProp(cl.Props, prop) {
+				return true
+			}
+		}
+	}
+	return false
+}
+
+func matchKnown(known []knownFinding, prop, obl string) *knownFinding {
+	for i := range known {
+		k := &known[i]
+		if k.Status == "known" && k.Property == prop && k.Obligation != "" && (k.Obligation == obl || strings.HasPrefix(obl, k.Obligation+"#")) {
+			return k
+		}
+	}
+	return nil
+}
+
+func matchKnownBounded(known []knownFinding, prop, harness, input string) *knownFinding {
+	for i := range known {
+		k := &known[i]
+		if k.Status == "known" && k.Property == prop && k.Harness == harness && k.Input == input {
+			return k
+		}
+	}
+	return nil
+}
+
+func replayHasInput(r *oblResult) bool { return false }
+
+func writeReplay(prop string, r *oblResult) string {
+	dir := filepath.Join(verifDir, "replays", prop)
+	os.MkdirAll(dir, 0o755)
+	base := filepath.Join(dir, sanitize(r.O.Name))
+	os.WriteFile(base+".smt2", []byte(r.Scr), 0o644)
+	rep := map[string]interface{}{
+		"property":      prop,
+		"obligation":    r.O.Name,
+		"kind":          r.O.Kind,
+		"function":      r.O.Func,
+		"position":      r.O.Pos,
+		"description":   r.O.Desc,
+		"status":        r.R.Status,
+		"solvers":       r.R.Tried,
+		"solver_output": r.R.Output,
+		"model":         r.R.Model,
+		"script":        base + ".smt2",
+		"rerun":         fmt.Sprintf("z3-new -T:60 %s.smt2   # unsat = obligation holds", base),
+		"failing_input": nil,
+		"note":          "obligation that discharges on the reference tree no longer does; no concrete failing input was derived (no-failing-input-found)",
+	}
+	writeJSON(base+".json", rep)
+	return base + ".json"
+}
+
+// ---------- vacuity ----------
+
+func vacuityChecks(gr *genResult, prop string) []string {
+	var jobs []job
+	var out []string
+	type vres struct {
+		name string
+		st   string
+	}
+	ch := make(chan vres, 1024)
+	n := 0
+	for _, fv := range gr.fvs {
+		fv := fv
+		// entry: requires + parameter facts satisfiable (unsat would make every proof vacuous)
+		add := func(label string, guard Term, blk int) {
+			o := &Obligation{Name: fv.name + "/vacuity:" + label, Guard: guard, Goal: "false", fv: fv, Blk: blk}
+			scr := o.script()
+			n++
+			jobs = append(jobs, job{name: o.Name, script: scr, need: 1, tmo: 2, done: func(r *SolveResult) { ch <- vres{o.Name, r.Status} }})
+		}
+		add("entry", "g_entry", 0)
+		for _, li := range fv.loopList {
+			if g, ok := fv.blockIn[li.head]; ok {
+				add(fmt.Sprintf("loop%d", li.ord), g, li.head.Index)
+			}
+		}
+	}
+	runJobs(jobs, 16)
+	close(ch)
+	for v := range ch {
+		if v.st == "unsat" {
+			out = append(out, v.name+": assumptions are contradictory (everything would be provable)")
+		}
+	}
+	sort.Strings(out)
+	return out
+}
+
+// ---------- evidence ----------
+
+func writeEvidence(prop, tier string, seed int, conf propConf, gr *genResult, results []*oblResult, bres []boundedResult, drift []string, wall float64, vac []string, violations int, knownHit map[string]bool) {
+	level := conf.Level
+	if level == "" {
+		level = "proof"
+	}
+	obligations, discharged := 0, 0
+	bySolver := map[string]int{}
+	byKind := map[string]int{}
+	solverTime := 0.0
+	var samples []interface{}
+	funcs := map[string]bool{}
+	var undischarged []string
+	for _, r := range results {
+		if r.R.Status == "bounded" {
+			continue
+		}
+		obligations++
+		funcs[r.O.Func] = true
+		byKind[r.O.Kind]++
+		solverTime += r.R.Time
+		if r.R.Status == "unsat" {
+			discharged++
+			bySolver[r.R.Solver]++
+			if len(samples) < 8 && r.R.Solver != "trivial" {
+				samples = append(samples, map[string]interface{}{"obligation": r.O.Name, "kind": r.O.Kind, "what": r.O.Desc, "solver": r.R.Solver, "seconds": round3(r.R.Time)})
+			}
+		} else {
+			undischarged = append(undischarged, r.O.Name+" ("+r.R.Status+")")
+		}
+	}
+	for _, d := range drift {
+		if strings.HasPrefix(d, "expected obligation not generated") {
+			obligations++ // counted as an obligation that was not discharged
+		}
+	}
+	assum := map[string]bool{}
+	for _, a := range conf.Assumptions {
+		assum[a] = true
+	}
+	var fnames []string
+	if gr != nil {
+		for _, fv := range gr.fvs {
+			if !funcs[fv.name] {
+				continue
+			}
+			for a := range fv.assumptions {
+				assum[a] = true
+			}
+			for a := range fv.e.notes {
+				assum["encoding: "+a] = true
+			}
+		}
+		for f := range funcs {
+			fnames = append(fnames, f)
+		}
+		sort.Strings(fnames)
+	}
+	var assumptions []string
+	for a := range assum {
+		assumptions = append(assumptions, a)
+	}
+	sort.Strings(assumptions)
+	cov := map[string]interface{}{
+		"obligations":              obligations,
+		"discharged":               discharged,
+		"checker_cmd":              fmt.Sprintf("/verif/bin/qv check %s -tier %s  (VCs generated from /repo's go/ssa form; solvers raced per obligation: z3-new 5.1.0, z3 4.8.12, cvc5 1.0.x)", prop, tier),
+		"trusted_base":             append([]string{"go/packages+go/types+go/ssa (x/tools v0.29.0) lowering of the source", "qv VC generator and SMT encoding (/verif/qv)", "z3 / cvc5 unsat answers"}, conf.Trusted...),
+		"samples":                  samples,
+		"functions_under_contract": fnames,
+		"obligations_by_kind":      byKind,
+		"by_solver":                bySolver,
+		"solver_time_s":            round3(solverTime),
+		"undischarged":             undischarged,
+		"drift":                    drift,
+		"vacuity_failures":         vac,
+	}
+	if conf.Explanation != "" {
+		cov["explanation"] = conf.Explanation
+	}
+	var kh []string
+	for k := range knownHit {
+		kh = append(kh, k)
+	}
+	sort.Strings(kh)
+	cov["known_findings_hit"] = kh
+	if len(bres) > 0 {
+		var bl []interface{}
+		evals, distinct := 0, 0
+		for _, b := range bres {
+			bl = append(bl, b)
+			evals += b.Evaluations
+			distinct += b.DistinctNontrivial
+		}
+		cov["bounded_checks"] = bl
+		cov["evaluations"] = evals
+		cov["distinct_nontrivial"] = distinct
+		cov["rule"] = "bounded stand-ins (labelled bounded, not counted in discharged): see bounded_checks[].rule"
+	}
+	if level == "proof" && (obligations == 0 || discharged != obligations) {
+		// a proof-level claim needs every obligation discharged; otherwise report honestly as other
+		level = "other"
+		if _, ok := cov["explanation"]; !ok {
+			cov["explanation"] = "not every obligation discharged on this run (see undischarged / drift); reported as 'other' rather than 'proof'"
+		}
+	}
+	ev := map[string]interface{}{
+		"property_id": prop,
+		"tier":        tier,
+		"seed":        seed,
+		"level":       level,
+		"coverage":    cov,
+		"assumptions": assumptions,
+		"wall_s":      round3(wall),
+		"violations":  violations,
+	}
+	writeJSON(filepath.Join(verifDir, "evidence", prop+".json"), ev)
+}
+
+func round3(f float64) float64 { return float64(int(f*1000+0.5)) / 1000 }
+
 func cmdSelftest(args []string) int { return 2 }
